@@ -33,7 +33,7 @@ TNext ==
      \/ Ev.ev = "list" /\ PList(Ev.s, Ev.f, AsSeq(Ev.res), AsSeq(Ev.types), AsSeq(Ev.anns), Ev.err)
      \/ Ev.ev = "tag" /\ PTag(Ev.s, AsSeq(Ev.res), AsSeq(Ev.types), AsSeq(Ev.anns))
      \/ Ev.ev = "fetch" /\ PFetch(IF Ev.got = Ev.asked THEN "same"
-                                     ELSE IF Ev.got \in {"notfound", "error"} THEN Ev.got ELSE "other")
+                                     ELSE IF Ev.got \in {"notfound", "error"} THEN Ev.got ELSE "other", Ev.view)
      \/ Ev.ev = "note" /\ PNote
 TSpec == TInit /\ [][TNext]_<<pvars, l, tid>>
 \* report-and-continue: the event at line l-1 violated obligation `bad`
